@@ -265,8 +265,8 @@ def _attr_key_search_stub(*a):
     raise AssertionError("ghost function")
 
 
-class _AbstractMapping:
-    """a mapping known only through .items() (a finite sequence of key/value pairs)"""
+class _AbstractMapping(__import__("collections").abc.Mapping):
+    """a Mapping known only through .items() (a finite sequence of key/value pairs); never instantiated"""
 
 
 class XmlAttr(VC):
